@@ -156,6 +156,11 @@ CHECKS['C20'] = (
     'For every explored transition (state, event) of small workflows and every commit position k=1..4 inside the iteration handling the event (plus the boundary, k=0) the scheduler is killed right after that commit through an sqlite connection seam, the byte image of the private/public DB of that instant is restored, and a new Scheduler restarts from it while jobs carry on (a jobs-submit in flight either launches or is lost). Oracles: no job launched twice under one submit number, no resubmission without failure, and in every terminal state the set of instances run equals the reference closure.',
     'Process death only (SQLite journal guarantees assumed); one crash per execution; two known findings recorded (double launch of a submit in flight; child lost after the early flush in TaskPool.remove).')
 
+CHECKS['C33'] = (
+    'schedmc', 'model_checking', A_TECH, '6/C33',
+    'Custom xtriggers shared between tasks and cycles (and per-cycle signatures) with call intervals of 2-5 s: each call is a fake process whose result (False with a budget, or True) and completion time are chosen by the explorer, with clock jumps to every next-call deadline. Per signature the monitor checks at most one call in progress, consecutive calls (queue times) at least the interval apart, no call after a success while a pooled task still needs it, and in quiescent states every dependent of a succeeded signature is satisfied.',
+    A_NOTE)
+
 NOT_BUILT_REASON = (
     'check not built yet in this session (designed in DESIGN.md section 6); '
     'no verdict is claimed')
